@@ -37,6 +37,26 @@ func setup(e *mon.Env) {
 // pairs: Elvish code that outputs two values expected to be eq although
 // they were constructed differently.
 var catalogue = []struct{ name, code string }{
+	// Pairs that the documentation says are NOT eq. They are only judged if eq
+	// nevertheless reports them equal (then they must hash alike too), so a
+	// change that widens eq without widening the hash is seen.
+	{"not-eq:nan-payloads", `num NaN; - (num Inf) (num Inf)`},
+	{"not-eq:nan-computed", `num NaN; / (num 0.0) (num 0.0)`},
+	{"not-eq:nan-sqrt", `num NaN; math:sqrt -1`},
+	{"not-eq:nan-in-list", `put [(num NaN)] [(- (num Inf) (num Inf))]`},
+	{"not-eq:nan-map-value", `put [&k=(num NaN)] [&k=(math:sqrt -1)]`},
+	{"not-eq:exact-vs-inexact", `num 1; num 1.0`},
+	{"not-eq:exact-vs-inexact-big", `num 9223372036854775808; num 9223372036854775808.0`},
+	{"not-eq:rat-vs-float", `num 1/2; num 0.5`},
+	{"not-eq:string-vs-num", `put 1; num 1`},
+	{"not-eq:string-vs-float", `put 1.0; num 1.0`},
+	{"not-eq:list-vs-string", `put [a]; put a`},
+	{"not-eq:map-vs-list", `put [&]; put []`},
+	{"not-eq:nil-vs-empty", `put $nil; put ''`},
+	{"not-eq:bool-vs-string", `put $true; put true`},
+	{"not-eq:case", `put a; put A`},
+	{"not-eq:nested-exactness", `put [[(num 2)]] [[(num 2.0)]]`},
+	{"not-eq:map-exactness-key", `put [&(num 2)=v] [&(num 2.0)=v]`},
 	{"zero-sign", `num 0.0; num -0.0`},
 	{"zero-sign-computed", `* -1 0.0; num 0.0`},
 	{"zero-sign-in-list", `put [a (num 0.0) b] [a (num -0.0) b]`},
